@@ -39,7 +39,7 @@ type omCase struct {
 	Expect    []omState `json:"expect"` // state after each op (same length as Ops)
 }
 
-var omKeys = []string{"k1", "k2", "k3"}
+var omKeys = []string{"k1", "k2", "k3", "k4", "k5", "k6"}
 
 // ---- adapters over the four real containers ----
 
@@ -138,7 +138,7 @@ func (a ruleNodesAd) observe(keys []string) (omObs, []string) {
 			o.Get[k] = v.Value
 		}
 	}
-	for mask := 0; mask < 1<<len(omKeys); mask++ {
+	for _, mask := range omMasks {
 		it, ok := a.m.Find(func(k string, _ schema.RuleASTNode) bool {
 			for i, kk := range omKeys {
 				if kk == k && mask&(1<<i) != 0 {
@@ -210,7 +210,7 @@ func (a astNodesAd) observe(keys []string) (omObs, []string) {
 			o.Get[k] = v.Value
 		}
 	}
-	for mask := 0; mask < 1<<len(omKeys); mask++ {
+	for _, mask := range omMasks {
 		it, ok := a.m.Find(func(k string, _ schema.ASTNode) bool {
 			for i, kk := range omKeys {
 				if kk == k && mask&(1<<i) != 0 {
@@ -242,7 +242,8 @@ func (a astNodesAd) observe(keys []string) (omObs, []string) {
 }
 
 // -- Constraints (keys are constraint types, values constraint objects)
-var omCKeys = map[string]constraint.Type{"k1": constraint.EmailConstraintType, "k2": constraint.DateConstraintType, "k3": constraint.UuidConstraintType}
+var omCKeys = map[string]constraint.Type{"k1": constraint.EmailConstraintType, "k2": constraint.DateConstraintType, "k3": constraint.UuidConstraintType,
+	"k4": constraint.MinConstraintType, "k5": constraint.MaxConstraintType, "k6": constraint.RegexConstraintType}
 var omCVals = map[string]constraint.Constraint{"v1": constraint.NewEmail(), "v2": constraint.NewUri()}
 
 func omCKeyName(t constraint.Type) string {
@@ -300,7 +301,7 @@ func (a constraintsAd) observe(keys []string) (omObs, []string) {
 			o.Get[k] = omCValName(v)
 		}
 	}
-	for mask := 0; mask < 1<<len(omKeys); mask++ {
+	for _, mask := range omMasks {
 		it, ok := a.m.Find(func(k constraint.Type, _ constraint.Constraint) bool {
 			for i, kk := range omKeys {
 				if omCKeys[kk] == k && mask&(1<<i) != 0 {
@@ -348,6 +349,8 @@ func newOmAdapter(name string) omAdapter {
 		return ruleNodesAd{&schema.RuleASTNodes{}}
 	case "RuleASTNodes.Make":
 		return ruleNodesAd{schema.MakeRuleASTNodes(1)}
+	case "RuleASTNodes.Make8":
+		return ruleNodesAd{schema.MakeRuleASTNodes(8)}
 	case "ASTNodes":
 		return astNodesAd{&schema.ASTNodes{}}
 	case "Constraints":
@@ -360,7 +363,10 @@ func newOmAdapter(name string) omAdapter {
 	panic("unknown container " + name)
 }
 
-var omContainers = []string{"RuleASTNodes", "RuleASTNodes.Make", "ASTNodes", "Constraints", "StringSet", "StringSet.New"}
+// subsets of keys used as Find predicates: none, all, singletons, a few pairs / complements
+var omMasks = []int{0, 63, 1, 2, 4, 8, 16, 32, 3, 6, 5, 40, 62, 55}
+
+var omContainers = []string{"RuleASTNodes", "RuleASTNodes.Make", "RuleASTNodes.Make8", "ASTNodes", "Constraints", "StringSet", "StringSet.New"}
 
 func omCompare(container string, exp omState, o omObs, inc []string, lastOp string) []core.Finding {
 	var fs []core.Finding
@@ -399,7 +405,7 @@ func omCompare(container string, exp omState, o omObs, inc []string, lastOp stri
 		}
 	}
 	if o.Find != nil {
-		for mask := 0; mask < 1<<len(omKeys); mask++ {
+		for _, mask := range omMasks {
 			wantF := "none"
 			for _, k := range exp.Order {
 				hit := false
@@ -418,7 +424,7 @@ func omCompare(container string, exp omState, o omObs, inc []string, lastOp stri
 			}
 		}
 	}
-	if container == "RuleASTNodes" || container == "RuleASTNodes.Make" || container == "ASTNodes" {
+	if strings.HasPrefix(container, "RuleASTNodes") || container == "ASTNodes" {
 		if o.JSONErr != "" {
 			add("json", "MarshalJSON: "+o.JSONErr)
 		} else if strings.Join(o.JSON, ",") != strings.Join(want, ",") {
@@ -631,6 +637,55 @@ func runC19(c *core.Ctx) error {
 		}
 	})
 	c.Set("random_walks", nw)
+	// long random behaviours over six keys, generated by TLC in simulation mode (one trace file per behaviour)
+	var simCases []omCase
+	behs, sim, err := tlc.SimulateBehaviours("OrderedMap", "OrderedMap_sim.cfg", c.Pick(400, 6000), 60, c.Seed)
+	if sim != nil {
+		sim.Cleanup()
+	}
+	if err != nil {
+		return err
+	}
+	for _, beh := range behs {
+		var cs omCase
+		for _, st := range beh[1:] {
+			last := tlc.Rec(st["last"])
+			op := omOp{Op: tlc.Str(last["op"]), K: "", V: ""}
+			if k, ok := last["k"]; ok {
+				op.K = tlc.Str(k)
+			}
+			if v, ok := last["v"]; ok {
+				op.V = tlc.Str(v)
+			}
+			for _, f := range []string{"keep", "on"} {
+				if ks, ok := last[f]; ok {
+					op.Keys = tlc.Strs(ks)
+					if op.Keys == nil {
+						op.Keys = []string{}
+					}
+					sort.Strings(op.Keys)
+				}
+			}
+			cs.Ops = append(cs.Ops, op)
+			cs.Expect = append(cs.Expect, omStateOf(st))
+		}
+		if len(cs.Ops) > 0 {
+			simCases = append(simCases, cs)
+		}
+	}
+	if len(simCases) == 0 {
+		return fmt.Errorf("OrderedMap simulation produced no behaviour")
+	}
+	core.ParallelFor(len(simCases), func(i int) {
+		for _, cont := range omContainers {
+			cs := simCases[i]
+			cs.Container = cont
+			fs := omEval(cs)
+			c.CountEval(1)
+			c.Report(cs, fs)
+		}
+	})
+	c.Set("simulated_behaviours_6_keys", len(simCases))
 	c.Sample(walks[0].Ops[:6])
 	c.Set("rule", "paths of the TLC-dumped OrderedMap state graph: from every state (by BFS access sequence) all action sequences of length <= k (k from the initial state one larger), on 6 container constructions; plus seeded random walks of 10-50 actions compared after every action. distinct_nontrivial counts graph states reached plus distinct (state, action) edges replayed")
 	c.Set("k_from_every_state", k)
